@@ -379,7 +379,9 @@ func firstFrame(s string) string {
 }
 
 func pickStrategy(r *rand.Rand) string {
-	return []string{"first", "random", "random", "rtb", "rtb", "pct", "pct", "starve:conc.drain", "starve:conc.pull", "starve:worker", "starve:coal"}[r.Intn(11)]
+	// starve:main lets the engine's goroutines run as far ahead of the consumer as their buffers
+	// allow; the other starve:* hold one kind of engine goroutine back as long as anything else can run
+	return []string{"first", "random", "random", "rtb", "rtb", "pct", "pct", "starve:conc.drain", "starve:conc.pull", "starve:worker", "starve:coal", "starve:main", "starve:main"}[r.Intn(13)]
 }
 
 var reNumAny = regexp.MustCompile(`[0-9]+`)
